@@ -29,6 +29,9 @@ func isChanOf(t types.Type, elem string) bool {
 func chanRoot(v ssa.Value) ssa.Value {
 	for i := 0; i < 8; i++ {
 		switch x := v.(type) {
+		case *ssa.ChangeType:
+			v = x.X // chan T handed over as <-chan T / chan<- T
+			continue
 		case *ssa.UnOp:
 			if x.Op == token.MUL {
 				if a, ok := x.X.(*ssa.Alloc); ok {
@@ -114,10 +117,14 @@ func c16Collect(p *ana.Prog, r *ana.Result, cm *ssa.Function) {
 	var nVal ssa.Value
 	ana.IfEdges(cm, func(iff *ssa.If, b *ssa.BasicBlock) {
 		c, _, isCmp := ana.AsCmp(iff.Cond)
-		if !isCmp || c.Op != token.NEQ {
+		if !isCmp {
 			return
 		}
 		for _, c := range []ana.Cmp{c, c.Mirror()} {
+			// i != len(ms), or i < len(ms) / i >= len(ms) for a counter that goes up in steps of one
+			if c.Op != token.NEQ && c.Op != token.LSS && c.Op != token.GEQ {
+				continue
+			}
 			// the counter is a loop-header phi; the test may sit in a later block of a compound loop condition
 			leaves := false // the test decides whether the loop goes on: one of its outcomes leaves the loop
 			if ph, ok := c.X.(*ssa.Phi); ok {
@@ -307,7 +314,33 @@ func c16Collect(p *ana.Prog, r *ana.Result, cm *ssa.Function) {
 				rets++
 			}
 		})
-		s := &ana.Search{Fn: cm, NoFacts: true, Stop: func(in ssa.Instruction) bool { return in == ssa.Instruction(drain) }, Target: func(in ssa.Instruction) bool { _, ok := in.(*ssa.Return); return ok }}
+		// a return behind `i == len(ms)` has nothing left to drain
+		allReceived := func(e ana.Edge) bool {
+			iff, ok := e.From.Instrs[len(e.From.Instrs)-1].(*ssa.If)
+			if !ok {
+				return false
+			}
+			for _, a := range ana.Implied(iff.Cond, e.Succ == 0) {
+				cmp, pos, ok := ana.AsCmp(a.V)
+				if !ok {
+					continue
+				}
+				for _, c := range []ana.Cmp{cmp, cmp.Mirror()} {
+					if c.X != ssa.Value(iPhi) || !isLenOf(c.Y) {
+						continue
+					}
+					if call, _ := ana.CallOf(c.Y); call == nil || call.Common().Args[0] != ssa.Value(ms) {
+						continue
+					}
+					truth := a.Holds == pos
+					if (c.Op == token.EQL && truth) || (c.Op == token.NEQ && !truth) || (c.Op == token.LSS && !truth) || (c.Op == token.GEQ && truth) {
+						return true
+					}
+				}
+			}
+			return false
+		}
+		s := &ana.Search{Fn: cm, NoFacts: true, StopEdge: allReceived, Stop: func(in ssa.Instruction) bool { return in == ssa.Instruction(drain) }, Target: func(in ssa.Instruction) bool { _, ok := in.(*ssa.Return); return ok }}
 		if found, w := s.Run(nil); found {
 			r.Violate("C16.balance", fname, "drain-on-every-exit", posOf(p, drain), "collectMeasurements can return without starting the drain", w...)
 		} else {
@@ -480,7 +513,8 @@ func c16DrainBody(p *ana.Prog, r *ana.Result, fn *ssa.Function, msc *ssa.Paramet
 	var nPhi *ssa.Phi
 	ana.IfEdges(fn, func(iff *ssa.If, b *ssa.BasicBlock) {
 		c, _, isCmp := ana.AsCmp(iff.Cond)
-		if isCmp && c.Op == token.NEQ {
+		if isCmp && (c.Op == token.NEQ || c.Op == token.GTR || c.Op == token.LEQ) {
+			// n != 0, or n > 0 / n <= 0 for a count that is never negative
 			if ph, ok := c.X.(*ssa.Phi); ok {
 				if k, ok := ana.ConstInt(c.Y); ok && k == 0 {
 					nPhi = ph
@@ -490,7 +524,7 @@ func c16DrainBody(p *ana.Prog, r *ana.Result, fn *ssa.Function, msc *ssa.Paramet
 	})
 	recvs, decs := 0, 0
 	sameBlock := true
-	var recvBlock *ssa.BasicBlock
+	var recvBlock, decBlock *ssa.BasicBlock
 	ana.Instrs(fn, func(in ssa.Instruction) {
 		switch x := in.(type) {
 		case *ssa.UnOp:
@@ -502,13 +536,27 @@ func c16DrainBody(p *ana.Prog, r *ana.Result, fn *ssa.Function, msc *ssa.Paramet
 			if x.Op == token.SUB && nPhi != nil && x.X == ssa.Value(nPhi) {
 				if k, _ := ana.ConstInt(x.Y); k == 1 {
 					decs++
-					if recvBlock != x.Block() {
-						sameBlock = false
-					}
+					decBlock = x.Block()
 				}
 			}
 		}
 	})
+	// one receive and one decrement per iteration: both blocks lie on every way round the loop
+	if nPhi != nil && recvBlock != nil && decBlock != nil {
+		hdr := nPhi.Block()
+		for _, pred := range hdr.Preds {
+			if !inLoopOf(hdr, pred) && pred != hdr {
+				continue
+			}
+			for _, b := range []*ssa.BasicBlock{recvBlock, decBlock} {
+				if !(b == pred || b.Dominates(pred)) || !(b == hdr || inLoopOf(hdr, b)) {
+					sameBlock = false
+				}
+			}
+		}
+	} else {
+		sameBlock = false
+	}
 	startsAtParam := false
 	if nPhi != nil {
 		for _, e := range nPhi.Edges {
